@@ -291,6 +291,35 @@ Proof.
   rewrite E1. rewrite (fpull_app (len data) _ _ f) by reflexivity. reflexivity.
 Qed.
 
+(* ... and the refused frame, all of it and nothing more, has been passed over: the reader
+   stands on the next envelope *)
+Lemma env_read_oversize_position : forall max fl data rest f,
+  len data < two32 -> 0 < max -> max < len data ->
+  env_read_f max (frame fl data ++ rest, f) = (inr (RErr code_invalid_argument), (rest, f)).
+Proof.
+  intros max fl data rest f Hlen Hpos Hbig. unfold env_read_f, env_read.
+  rewrite frame_unfold. rewrite (fpull_app 5 _ _ f) by reflexivity.
+  unfold be32. cbn [app].
+  pose proof (be32_roundtrip (len data) Hlen) as Hrt. unfold be32 in Hrt. rewrite Hrt.
+  assert (((0 <? max) && (max <? len data)) = true) as E1.
+  { apply andb_true_iff. split; apply N.ltb_lt; assumption. }
+  rewrite E1. rewrite (fpull_app (len data) _ _ f) by reflexivity. reflexivity.
+Qed.
+
+(* a reader that goes on after the refusal (a bidi handler, a raw conn) gets, from then on,
+   exactly what it would get from the rest of the stream *)
+Lemma recv_after_refusal_lemma : forall (M : Type) (um : bytes -> M -> option M) (dc : bytes -> option bytes) (zero : M)
+    k max pool fl data rest f,
+  len data < two32 -> 0 < max -> max < len data ->
+  recv_n_f M um dc zero (Datatypes.S k) max pool (frame fl data ++ rest, f)
+  = UErr (RErr code_invalid_argument) :: recv_n_f M um dc zero k max pool (rest, f).
+Proof.
+  intros M um dc zero k max pool fl data rest f Hlen Hpos Hbig.
+  unfold recv_n_f. cbn [recv_n]. unfold env_unmarshal.
+  fold (env_read_f max (frame fl data ++ rest, f)).
+  rewrite (env_read_oversize_position max fl data rest f Hlen Hpos Hbig). reflexivity.
+Qed.
+
 (* a declared length above the limit is refused whatever bytes are (or are not)
    present: the reader never buffers them (it copies them to io.Discard) *)
 Lemma env_read_declared_oversize : forall max fl a b c d body f,
